@@ -1,6 +1,5 @@
-from . import props_rules, props_parse, props_tree
+from . import props_rules, props_parse, props_tree, props_layout, props_eval
 
 CHECKS = {}
-CHECKS.update(props_rules.CHECKS)
-CHECKS.update(props_parse.CHECKS)
-CHECKS.update(props_tree.CHECKS)
+for m in (props_rules, props_parse, props_tree, props_layout, props_eval):
+    CHECKS.update(m.CHECKS)
